@@ -397,6 +397,13 @@ class Sys(object):
             dec = cls(cfg['maxsize'], **kw)
         else:
             dec = cls(maxsize=cfg['maxsize'], **kw)
+        via = cfg.get('deco_via')
+        if via == 'copy':
+            # the decorator object rebuilt from itself (its __reduce__) before it is applied: same configuration
+            dec = copy.copy(dec)
+        elif via == 'pickle':
+            import dill
+            dec = dill.loads(dill.dumps(dec))
         self.decorator = dec
         return dec
 
@@ -782,7 +789,7 @@ class Result(object):
 
 def cfg_name(cfg):
     keys = ('module', 'alg', 'maxsize', 'maxsize_pos', 'purge', 'keymap', 'backend', 'init',
-            'ignore', 'tol', 'deep', 'result', 'fn', 'args', 'nargs', 'narrow', 'twin', 'scale', 'longuse')
+            'ignore', 'tol', 'deep', 'result', 'fn', 'args', 'nargs', 'narrow', 'twin', 'scale', 'longuse', 'deco_via')
     return ' '.join('%s=%s' % (k, cfg[k]) for k in keys if k in cfg and cfg[k] not in (None, False))
 
 
